@@ -169,7 +169,9 @@ class Harness:
     from fedjax.training import checkpoint, federated_experiment as fe, logging as flog
     # every call is a NEW process in reality (the previous one may have crashed): whatever the training modules keep in
     # module-level variables is gone - their globals are put back to what they were right after import.
-    _forget_module_state((serialization, checkpoint, flog, fe))
+    import sys
+    _forget_module_state([m for n, m in sorted(sys.modules.items()) if m is not None and (n == 'fedjax' or n.startswith('fedjax.'))
+                          and not n.endswith('_test')])
     self.inj = inj = (injector_cls or fault.Injector)(flt)
     proxy = fault.TFProxy(real_tf, inj)
     sampler = fedjax.client_samplers.UniformGetClientSampler(self.fd, 2, seed=3)
@@ -355,8 +357,8 @@ def plan(ctx):
   ctx.assumptions += ['crash = process death; a file holds the bytes written before the crash (every prefix tried), or - for handles still open at the crash - only what had been flushed/closed (crash_lose: user-space buffers die with the process)',
                       'tf.summary is stubbed (no TensorBoard in the sandbox); event files are not observed',
                       'a restart is modelled in-process: fresh sampler/config objects per call and the module-level variables '
-                      'of the training/serialization modules reset to their import-time values; state hidden elsewhere '
-                      '(other modules, class attributes) would survive',
+                      'of every imported fedjax module reset to their values at first use; state hidden in class attributes '
+                      'or in third-party modules would survive',
                       'round-deterministic toy algorithm (state = hash chain over cohorts) with the real '
                       'UniformGetClientSampler; plus a bfloat16 / weakly-typed-scalar state; one real FedAvg configuration (thorough: all checkpointing configurations)']
   cs = [{'cfg': c, 'stray': c['ckpt'] == 1 and c['num_rounds'] == 2, 'all_prefixes_depth': 1 if th else 0}
